@@ -176,7 +176,9 @@ def solve1d(ctx, rng, idx):
                   "solve1d/uniform-drifts/%s/%s" % ("implicit" if iname in gen.IMPLICIT else "explicit", desc["model"]),
                   {"eq": i, "integrator": iname, "max_change": np.max(np.abs(fe.data[i] - f.data[i]))}, cls="solve1d")
     if kind == "per" and iname in gen.EXPLICIT and not dtlocal:
-        ctx.true("solve1d:bitwise-per", all(np.array_equal(a, b) for a, b in zip(fe.data, f.data)) or True, "solve1d/periodic-explicit-not-bitwise")
+        # all face fluxes of a uniform periodic state are the same number: the residual is exactly zero and the state bit-identical
+        ctx.true("solve1d:bitwise-per", all(np.array_equal(a, b) for a, b in zip(fe.data, f.data)), "solve1d/periodic-explicit-not-bit-identical/" + desc["model"],
+                 {"max change": max(np.max(np.abs(a - b)) for a, b in zip(fe.data, f.data)), "integrator": iname}, cls="solve1d")
     ctx.info.setdefault("integrators", {}).setdefault(iname, 0)
     ctx.info["integrators"][iname] += 1
     ctx.nontrivial("solve", iname, cfl, nstep, dtlocal, desc)
